@@ -260,6 +260,7 @@ def discharge1(ob, vals, unit):
     stringy = any(smt.has_strings(c) for c in cs)
     order = ['cvc5-quick', 'z3-quick', 'cvc5', 'z3'] if stringy else ['z3-quick', 'cvc5-quick', 'z3', 'cvc5']
     tried = []
+    cvc5_sat = False
     for be in order:
         if be.startswith('cvc5'):
             r = smt.cvc5_check(cs, 2500 if be.endswith('quick') else CVC5_TIMEOUT_S * 1000)
@@ -267,8 +268,8 @@ def discharge1(ob, vals, unit):
             if r == 'unsat':
                 ob.status, ob.backend = 'discharged', 'cvc5-1.4.0'
                 break
-            if r == 'sat' and not stringy:
-                pass        # take the counter-model from z3 below (same query)
+            if r == 'sat':
+                cvc5_sat = True        # a definite refutation; the counter-model is taken from z3 below if it finds one
             continue
         s = z3.Solver()
         s.set('timeout', Z3_FIRST_MS if be.endswith('quick') else Z3_TIMEOUT_MS)
@@ -298,7 +299,12 @@ def discharge1(ob, vals, unit):
                 ob.model = {'<projection-error>': repr(e)}
             break
     else:
-        ob.status, ob.backend = 'undecided', ' '.join(tried)
+        if cvc5_sat:
+            # cvc5 found the negated obligation satisfiable but no model is carried over: the obligation fails, without a failing input
+            ob.status, ob.backend, ob.model = 'failed', 'cvc5-1.4.0', None
+            ob.extra = ((ob.extra + '; ') if ob.extra else '') + 'cvc5: sat (no counter-model extracted); ' + ' '.join(tried)
+        else:
+            ob.status, ob.backend = 'undecided', ' '.join(tried)
     ob.secs = round(time.time() - t0, 3)
 
 
